@@ -178,6 +178,10 @@ fn parse_ratio_with_error(input: TokenStream) -> Result<(IBig, UBig, bool), Pars
 
     // generate expressions
     let num_val = num_val.ok_or(ParseError::NoDigits)?;
+    if den_marked && den_val.is_none() {
+        // a slash must be followed by the denominator
+        return Err(ParseError::NoDigits);
+    }
     let (num, den) = match base {
         Some(b) => {
             let b = b.parse::<u32>().or(Err(ParseError::UnsupportedRadix))?;
